@@ -41,18 +41,19 @@ type Explorer struct {
 	Violations     int
 	Exhaustive     bool
 	Diverged       string
-	visited        map[vkey][]vcost
+	visited        map[vkey]vcost
 	stopped        bool
 	SampleTraces   [][]int
 	firstViolation bool
+	divergenceReported bool
 }
 
 type vkey struct {
 	f1, f2 uint64
-	cur    int
+	cur    int32
 }
 
-type vcost struct{ pre, dev int }
+type vcost struct{ pre, dev int16 }
 
 func (e *Explorer) visitedCut(s *sched, curEnabled bool) bool {
 	if e.NoPrune {
@@ -60,30 +61,28 @@ func (e *Explorer) visitedCut(s *sched, curEnabled bool) bool {
 	}
 	k := vkey{s.f1, s.f2, -1}
 	if curEnabled {
-		k.cur = s.cur.id
+		k.cur = int32(s.cur.id)
 	}
-	c := vcost{s.pre, s.dev}
-	lst := e.visited[k]
-	for _, o := range lst {
+	c := vcost{int16(s.pre), int16(s.dev)}
+	if o, ok := e.visited[k]; ok {
 		if o.pre <= c.pre && o.dev <= c.dev {
 			return true
 		}
-	}
-	// keep only non-dominated entries
-	n := lst[:0]
-	for _, o := range lst {
-		if !(c.pre <= o.pre && c.dev <= o.dev) {
-			n = append(n, o)
+		// keep one entry per state (pointer-free map => no GC scanning): the dominated or,
+		// if incomparable, the one with the larger total is dropped. Dropping an entry only
+		// loses pruning, never soundness.
+		if !(c.pre <= o.pre && c.dev <= o.dev) && o.pre+o.dev <= c.pre+c.dev {
+			return false
 		}
 	}
-	e.visited[k] = append(n, c)
+	e.visited[k] = c
 	return false
 }
 
 // Run performs the search. It returns false if a replay divergence (infrastructure error)
 // occurred.
 func (e *Explorer) Run() bool {
-	e.visited = map[vkey][]vcost{}
+	e.visited = map[vkey]vcost{}
 	e.Exhaustive = true
 	e.explore(nil)
 	if e.stopped {
@@ -181,6 +180,19 @@ func (e *Explorer) explore(prefix []int) {
 				copy(np, choices[:i])
 				np[i] = alt
 				e.explore(np)
+				if e.Diverged != "" && !e.divergenceReported {
+					e.divergenceReported = true
+					// diagnose: is the parent execution itself reproducible?
+					r1 := e.runPrefix(prefix, false)
+					r2 := e.runPrefix(choices[:i], false)
+					desc := func(o Outcome) string {
+						if i < len(o.Points) {
+							return fmt.Sprintf("N=%d threads=%v cur=%v kind=%d (points=%d cut=%v)", o.Points[i].N, o.Points[i].Threads, o.Points[i].CurEnabled, o.Points[i].Kind, len(o.Points), o.Cut)
+						}
+						return fmt.Sprintf("only %d points", len(o.Points))
+					}
+					e.Diverged += fmt.Sprintf(" | parent prefix len %d, branching point %d recorded as N=%d threads=%v cur=%v kind=%d cut=%v; re-run of parent prefix: %s; re-run of choices[:i]: %s", len(prefix), i, p.N, p.Threads, p.CurEnabled, p.Kind, out.Cut, desc(r1), desc(r2))
+				}
 				if e.stopped || e.Diverged != "" {
 					return
 				}
